@@ -4,3 +4,5 @@ import JaxVerif.Properties.C17
 #print axioms JV.C17_call
 #print axioms JV.C17_trace
 #print axioms JV.C17_attrs
+#print axioms JV.C17_pytree
+#print axioms JV.C17_params
